@@ -5,16 +5,20 @@ number type (executed at `Rat`).
 
 How the Python is mirrored
 * a channel = (module kernel, data width, gamma);
-* every place where the code cuts the sample *or the fused weight* with
-  `self._channel_indices[k]` is `slice (widths chans) k` here — the fused weight
-  is cut by the **data** ranges, exactly like the code (DESIGN finding F07);
+* the sample is cut with `self._channel_indices[k]` = `slice (widths chans) k`; the
+  fused weight is cut with `self._weight_indices[k]` = `slice (wlens chans) k`, the
+  positions `new_weight` derives from the lengths of the modules' own weights
+  (`Chan.wlen`: what module `k`'s `new_weight` returns — for every artlib module a
+  function of the channel width only, so `_weight_indices` is constant from the first
+  sample on; before that there is no weight to cut).  (Until commit 9bccfb4 the weight
+  was cut with the data ranges — DESIGN finding F07, fixed.);
 * `category_choice` = `sum([a_k * gamma_k ...])`, Python's left-to-right `sum`
   starting from `0`; a skipped channel contributes `1.0 * gamma_k`;
   a NaN channel activation (`none`) makes the fused activation NaN;
 * `match_criterion_bin` = `all(...)` of the modules' own tests, vacuous for a
   skipped channel; `_match_tracking` lets every channel track;
 * `update` / `new_weight` = concatenation of the modules' results; what
-  `set_weight` / `add_weight` keep are the data-range slices of that vector and
+  `set_weight` / `add_weight` keep are the `_weight_indices` slices of that vector and
   the `W` property re-assembles them by concatenation: `stored`;
 * `modules[k].W`, `modules[k].weight_sample_counter_` are projections of the
   fused state (`chanState`); the sample counter lives on the FusionART object;
@@ -32,11 +36,13 @@ namespace Art.Fusion
 open Art
 
 /-- one data channel of a FusionART: the module's four kernel functions (for its
-current hyper-parameters), the width of its data slice, its `gamma` -/
+current hyper-parameters), the width of its data slice, its `gamma`, and the length
+of the module's weight vector (the length of what its `new_weight` returns) -/
 structure Chan (α : Type) where
   K : Kernel (List α) (List α) α α
   width : Nat
   gamma : α
+  wlen : Nat
 
 /-! ### slices -/
 section Slices
@@ -55,7 +61,7 @@ def slice (ws : List Nat) (k : Nat) (v : List β) : List β := (splitBy ws v).ge
 def offset (ws : List Nat) (k : Nat) : Nat := (ws.take k).sum
 
 /-- what `add_weight` / `set_weight` keep of a freshly computed fused weight,
-re-assembled by the `W` property: the concatenation of its data-range slices -/
+re-assembled by the `W` property: the concatenation of its slices at the positions `ws` -/
 def stored (ws : List Nat) (v : List β) : List β := (splitBy ws v).flatten
 
 /-- all entries present (an exception anywhere aborts the whole list comprehension) -/
@@ -80,7 +86,11 @@ end Slices
 section Kernel
 variable {α : Type} [Add α] [Mul α] [Zero α] [One α]
 
+/-- `_channel_indices` as widths -/
 def widths (chans : List (Chan α)) : List Nat := chans.map (·.width)
+
+/-- `_weight_indices` as widths -/
+def wlens (chans : List (Chan α)) : List Nat := chans.map (·.wlen)
 
 /-- `a + b` with NaN propagation -/
 def oadd : Option α → Option α → Option α
@@ -97,8 +107,8 @@ The module sees its own weight list `modules[k].W` = the `k`-slices of `W`. -/
 def chanTerm (chans : List (Chan α)) (skip : Nat → Bool) (W : List (List α)) (x w : List α)
     (k : Nat) (c : Chan α) : Option α :=
   if skip k then some (1 * c.gamma)
-  else (c.K.choice (W.map (slice (widths chans) k)) (slice (widths chans) k x)
-          (slice (widths chans) k w)).map (· * c.gamma)
+  else (c.K.choice (W.map (slice (wlens chans) k)) (slice (widths chans) k x)
+          (slice (wlens chans) k w)).map (· * c.gamma)
 
 def chanTerms (chans : List (Chan α)) (skip : Nat → Bool) (W : List (List α)) (x w : List α) :
     List (Option α) :=
@@ -112,12 +122,12 @@ def choiceSkip (chans : List (Chan α)) (skip : Nat → Bool) (W : List (List α
 /-- the channel match values `cache[k]["match_criterion"]` -/
 def matchVec (chans : List (Chan α)) (x w : List α) : List α :=
   chans.zipIdx.map (fun ck =>
-    ck.1.K.matchv (slice (widths chans) ck.2 x) (slice (widths chans) ck.2 w))
+    ck.1.K.matchv (slice (widths chans) ck.2 x) (slice (wlens chans) ck.2 w))
 
 /-- the per-channel results of `FusionART.update`, before `np.concatenate` -/
 def updatePieces (chans : List (Chan α)) (x w : List α) : List (List α) :=
   chans.zipIdx.map (fun ck =>
-    ck.1.K.update (slice (widths chans) ck.2 x) (slice (widths chans) ck.2 w))
+    ck.1.K.update (slice (widths chans) ck.2 x) (slice (wlens chans) ck.2 w))
 
 /-- the per-channel results of `FusionART.new_weight` -/
 def newPieces (chans : List (Chan α)) (x : List α) : List (List α) :=
@@ -134,8 +144,8 @@ property returns for it -/
 def fusionKernel (chans : List (Chan α)) : Kernel (List α) (List α) α (List α) :=
   { choice := choiceSkip chans noSkip
     matchv := matchVec chans
-    update := fun x w => stored (widths chans) (rawUpdate chans x w)
-    newW := fun x => stored (widths chans) (rawNew chans x) }
+    update := fun x w => stored (wlens chans) (rawUpdate chans x w)
+    newW := fun x => stored (wlens chans) (rawNew chans x) }
 
 /-- `modules[k]` as seen from outside: its weight list and per-category counters -/
 structure ModState (α : Type) where
@@ -143,7 +153,7 @@ structure ModState (α : Type) where
   cnt : List Nat
   deriving Repr
 
-/-- `modules[k].W`, `modules[k].weight_sample_counter_` -/
+/-- `modules[k].W`, `modules[k].weight_sample_counter_` (`ws` = the weight lengths) -/
 def chanState (ws : List Nat) (k : Nat) (s : ArtState (List α)) : ModState α :=
   ⟨s.W.map (slice ws k), s.cnt⟩
 
@@ -198,7 +208,7 @@ def predictSkip (chans : List (Chan α)) (ks : List Int) (W : List (List α)) (x
 /-- `get_channel_centers(k)`: `centre k` is module `k`'s weight-to-centre map -/
 def channelCentres (chans : List (Chan α)) (centre : Nat → List α → List α) (W : List (List α))
     (k : Nat) : List (List α) :=
-  W.map (fun w => centre k (slice (widths chans) k w))
+  W.map (fun w => centre k (slice (wlens chans) k w))
 
 /-- `predict_regression(X, target_channels)` for one row: one centre per target.
 `none` = the `IndexError` of `centers[k]` in the multi-target branch.
